@@ -8,7 +8,7 @@ pub fn prop() -> Prop {
     Prop {
         id: "C11",
         level: "model_checking",
-        rule: "all sequences S of <=5 (thorough <=7) values over a 6-value universe (three records with per-record regex patterns incl. an invalid one, a record without the selected members, a scalar, an array with a nested cell longer than 64 bytes; two records share a pattern and a split element but differ in what a macro reads besides `.`) — i.e. every concatenation A.B with |A|+|B| <= 5 (thorough 7), every permutation and every duplication — x 26 pipelines made of --set, --split-by, --filter, --select (regex functions with cache sizes 0,1,2; variables; macros; previously selected names; ^ after split; --only-objects-and-arrays) x 5 output styles (one-line, consise, pretty, text, csv) plus text with --headers; and sequences of 64, 257 and 1031 values; sequences of <=4 values mixing small records with rows of 1 KiB, 9 KiB and 20 KiB; non-trivial = S holds two values with different rows; distinct by construction",
+        rule: "all sequences S of <=5 (thorough <=7) values over a 6-value universe (three records with per-record regex patterns incl. an invalid one, a record without the selected members, a scalar, an array with a nested cell longer than 64 bytes; two records share a pattern and a split element but differ in what a macro reads besides `.`) — i.e. every concatenation A.B with |A|+|B| <= 5 (thorough 7), every permutation and every duplication — x 27 pipelines made of --set, --split-by, --filter, --select (regex functions with cache sizes 0,1,2; variables; macros; previously selected names; ^ after split; --only-objects-and-arrays) x 5 output styles (one-line, consise, pretty, text, csv) plus text with --headers; and sequences of 64, 257 and 1031 values; sequences of <=4 values mixing small records with rows of 1 KiB, 9 KiB and 20 KiB; non-trivial = S holds two values with different rows; distinct by construction",
         explanation: "metamorphic: out(S) must be the header (out of the empty input) followed by the bodies of out([s]) for each s in S in order; this single relation over all S implies out(A.B)=out(A).out(B), permutation and duplication",
         assumptions: COMMON_ASSUMPTIONS.to_vec(),
         guards: vec!["row-beyond-every-buffer", "hundreds-of-records", "two-patterns-through-a-one-entry-cache", "header-printed-once", "split-produced-rows", "value-dropped-by-filter", "repeated-value"],
@@ -66,6 +66,9 @@ fn pipelines() -> Vec<Pl> {
         // arguments that are usually constants (a time format, a selection text, a separator) taken from the record:
         // valid in one record, invalid in the next, then the same invalid one again
         Pl { name: "per-record-format-and-program", args: vec!["--select=(format_time .n .f)=t", "--select=(parse_selection .p)=ps", "--select=(join (push [] .s .s) .f)=j", "--select=(parse_time (format_time .n \"%Y %H\") .f)=pt", "--filter=(or (string? .f) (number? .))"], selections: true, cache1: false },
+        // functions that give up half way (a list whose second element is of the wrong type, a group key that is not a
+        // string for a later element) next to records for which the same call succeeds; group order inside a record
+        Pl { name: "functions-that-give-up-half-way", args: vec!["--select=(join (push [] .s .n .s) \"-\")=j", "--select=(group_by .l (? (> . 2) . \"le2\"))=g", "--select=(keys (group_by (push .l 9 8 7 6 5) (stringify .)))=k", "--select=(sum (push [] .n .s))=sm", "--select=(concat .s .n .s)=c"], selections: true, cache1: false },
         // scopes opened by set/define whose body gives nothing, next to a --set binding of the same name read by every record
         Pl { name: "set-scope-with-empty-body-over-preset", args: vec!["--set=k=\"n\"", "--select=(get . :k)=w", "--select=(set \"k\" \"s\" .zz)=v", "--select=(set \"k\" \"p\" (get . :k))=u"], selections: true, cache1: false },
         Pl { name: "define-scope-with-empty-body-over-preset", args: vec!["--set=@m=.n", "--select=@m=w", "--select=(define \"m\" .s .zz)=v", "--select=(define \"m\" .p @m)=u"], selections: true, cache1: false },
@@ -269,5 +272,5 @@ fn run(ctx: &mut Ctx) {
             }
         }
     }
-    ctx.level_done(&format!("all-sequences-of-<={maxlen}-values-x-26-pipelines-x-6-styles"));
+    ctx.level_done(&format!("all-sequences-of-<={maxlen}-values-x-27-pipelines-x-6-styles"));
 }
